@@ -93,11 +93,12 @@ func prefixBackend(under *backend, prefix string, withNeighbours bool) *backend 
 
 // write-key alphabets
 var (
-	keysFull  = sigma                                                                       // nil, "", a, a\x00, a\xff, b, \xff, \xff\xff
-	keysMid   = [][]byte{{}, []byte("a"), []byte("a\xff"), []byte("b"), []byte("\xff\xff")} // every shape once
-	keysSmall = [][]byte{{}, []byte("a"), []byte("a\xff"), []byte("b")}
-	keysTiny  = [][]byte{{}, []byte("a"), []byte("a\xff")}
-	keysMacro = [][]byte{[]byte("a"), []byte("\xff\xff")} // one key that sorts before most fillers, one after
+	keysFull   = sigma                                                                       // nil, "", a, a\x00, a\xff, b, \xff, \xff\xff
+	keysMid    = [][]byte{{}, []byte("a"), []byte("a\xff"), []byte("b"), []byte("\xff\xff")} // every shape once
+	keysSmall  = [][]byte{{}, []byte("a"), []byte("a\xff"), []byte("b")}
+	keysTiny   = [][]byte{{}, []byte("a"), []byte("a\xff")}
+	keysMacro  = [][]byte{[]byte("a"), []byte("\xff\xff")} // one key that sorts before most fillers, one after
+	keysMacro1 = keysMacro[:1]
 )
 
 func plan(r *vk.Run) []*cfg {
@@ -116,9 +117,12 @@ func plan(r *vk.Run) []*cfg {
 	// N around the thresholds of sort.Slice (12), typical node / page fan-outs and buffer sizes. They bring
 	// [batch op on k; N fillers; batch op on k; Write|WriteSync|Commit] and [N keys in the store; ...] within
 	// depth 4. A history must contain a fill letter to be completed here (the rest is the plain searches').
-	macro := func(be *backend, keys [][]byte, variants, depth int, fills, dbFills []int, merge int) {
+	macro := func(be *backend, keys [][]byte, variants, depth int, fills, dbFills []int, merge, workers int) {
+		if be.base == "bolt" {
+			workers = 48 // bolt.DB.Batch sleeps up to MaxBatchDelay (10 ms) per batch write: overlap the waiting
+		}
 		out = append(out, &cfg{name: be.name + "/macro", be: be, keys: keys, vals: two, variants: variants, depth: depth, maxBatch: 3,
-			mergeEvery: merge, fills: fills, dbFills: dbFills, maxFills: 1})
+			mergeEvery: merge, workers: workers, fills: fills, dbFills: dbFills, maxFills: 1})
 	}
 	allFills := []int{11, 12, 13, 16, 31, 64, 257}
 	pmem := prefixBackend(mem, "p", true)
@@ -136,8 +140,15 @@ func plan(r *vk.Run) []*cfg {
 		add(badger, keysTiny, two, 1, 3, 40, 0)
 		add(prefixBackend(ldb, "p", true), keysSmall, two, 1, 2, 20, 0)
 		add(prefixBackend(badger, "p", true), keysTiny, two, 1, 2, 20, 0)
-		macro(mem, keysMacro, 3, 4, allFills, []int{13, 64, 257}, 100)
-		macro(bolt, keysMacro, 3, 4, allFills, []int{13, 64, 257}, 100)
+		// every size on memdb and bolt; on the stores that cost 5-15 ms per history the sizes next to the
+		// sort.Slice threshold plus one bigger one (the thorough tier runs every size everywhere)
+		macro(mem, keysMacro1, 3, 4, envFills(allFills), envFills([]int{13, 64, 257}), 100, 0)
+		macro(bolt, keysMacro1, 3, 4, envFills(allFills), envFills([]int{13, 64, 257}), 100, 0)
+		macro(ldb, keysMacro1, 3, 4, []int{12, 13, 64}, []int{64}, 100, 0)
+		macro(badger, keysMacro1, 3, 4, []int{13, 64}, []int{64}, 100, 0)
+		macro(fsdb, keysMacro1, 3, 4, nil, []int{13, 64}, 100, 0)
+		macro(pmem, keysMacro1, 3, 4, envFills(allFills), []int{13}, 100, 0)
+		macro(prefixBackend(bolt, "p", true), keysMacro1, 3, 4, []int{13, 16, 64}, []int{64}, 100, 0)
 	} else {
 		add(mem, keysFull, two, 3, 4, 400, 0)
 		add(pmem, keysFull, two, 3, 3, 100, 0)
@@ -156,6 +167,19 @@ func plan(r *vk.Run) []*cfg {
 		add(prefixBackend(ldb, "p\xff", true), keysMid, two, 1, 3, 200, 0)
 		add(prefixBackend(bolt, "p", true), keysMid, two, 1, 3, 200, 0)
 		add(prefixBackend(badger, "p", true), keysSmall, two, 1, 3, 200, 0)
+		dbf := []int{13, 64, 257}
+		for _, be := range []*backend{mem, bolt, ldb, pmem, pmemFF} {
+			macro(be, keysMacro, 3, 4, allFills, dbf, 200, 0)
+		}
+		for _, be := range []*backend{badger, prefixBackend(bolt, "p", true), prefixBackend(ldb, "p", true), prefixBackend(badger, "p", true)} {
+			macro(be, keysMacro1, 3, 4, allFills, dbf, 100, 0)
+		}
+		macro(fsdb, keysMacro, 3, 4, nil, dbf, 200, 0)
+		// two fill letters in one history (a filled store under a big batch, two fills in one batch): depth 5
+		for _, be := range []*backend{mem, bolt} {
+			out = append(out, &cfg{name: be.name + "/macro2", be: be, keys: keysMacro1, vals: two, variants: 3, depth: 5, maxBatch: 3,
+				mergeEvery: 1000, workers: map[string]int{"bolt": 48}[be.base], fills: []int{12, 13, 64}, dbFills: []int{13, 257}, maxFills: 2})
+		}
 	}
 	// several searches may share a backend: make the names unique
 	seen := map[string]int{}
@@ -163,6 +187,21 @@ func plan(r *vk.Run) []*cfg {
 		seen[c.name]++
 		if seen[c.name] > 1 {
 			c.name = fmt.Sprintf("%s#%d", c.name, seen[c.name])
+		}
+	}
+	return out
+}
+
+// development aid: C19_MAXFILL=n drops fill sizes above n
+func envFills(f []int) []int {
+	var n int
+	if _, err := fmt.Sscan(os.Getenv("C19_MAXFILL"), &n); err != nil {
+		return f
+	}
+	var out []int
+	for _, x := range f {
+		if x <= n {
+			out = append(out, x)
 		}
 	}
 	return out
